@@ -691,14 +691,24 @@ class World:
                         return v._inline_cut
                 return v
 
-            def read(self, path, encoding=None):
-                with fs.open(path, "rb") as fd:
-                    data = fd.read()
-                seg = data.segs[0] if len(data.segs) == 1 else None
-                if not seg or seg[0] != "T" or not (isinstance(seg[1], tuple) and seg[1][0] == "INI"):
-                    raise Unsupported("configparser.read of a non-INI token")
-                self._d = {sec: {str(k).lower(): self._val(v) for k, v in kv.items()} for sec, kv in seg[1][1].items()}
-                return [path]
+            def read(self, filenames, encoding=None):
+                # like the real one: a list of names or one name; files that cannot be opened are skipped; what is
+                # read is MERGED into what the parser already holds (later values win, other options stay)
+                names = [filenames] if isinstance(filenames, (str, _os.PathLike)) or hasattr(filenames, "__fspath__") else list(filenames)
+                done = []
+                for path in names:
+                    try:
+                        with fs.open(path, "rb") as fd:
+                            data = fd.read()
+                    except OSError:
+                        continue
+                    seg = data.segs[0] if len(data.segs) == 1 else None
+                    if not seg or seg[0] != "T" or not (isinstance(seg[1], tuple) and seg[1][0] == "INI"):
+                        raise Unsupported("configparser.read of a non-INI token")
+                    for sec, kv in seg[1][1].items():
+                        self._d.setdefault(sec, {}).update({str(k).lower(): self._val(v) for k, v in kv.items()})
+                    done.append(path)
+                return done
 
             def __getitem__(self, sec):
                 if sec not in self._d:
